@@ -284,7 +284,7 @@ class Engine:
             kw["is_downto"] = self.r.choice([True, False])
         if self.r.random() < 0.1:
             kw["properties"] = self.r.choice([{"k": 1}, {"EDIF.identifier": self.pick(IDS)}])
-        return Op("Definition.create_port", lambda: d.create_port(nm, pins=pins, **kw), "create_port(%r,pins=%r,%s)" % (nm, pins, sorted(kw)), "random", d, (nm,))
+        return Op("Definition.create_port", lambda: d.create_port(nm, pins=pins, **kw), "create_port(%r,pins=%r,%s)" % (nm, pins, sorted(kw)), "random", d, (nm, kw.get("properties")))
 
     def op_add_port(self):
         d = self._def()
